@@ -127,6 +127,10 @@ def make_engine(name, bits=0, kind="univ", typeres=False, **kw):
     if kind == "univ":
         kw.setdefault("custom_default_resolver", universal)
     kw.setdefault("query_cache_decorator", DictCache())
+    two_step = kw.pop("two_step", None)
+    if two_step:
+        from vf.env import build_two_step
+        return build_two_step(sdl(bits), name, two_step, **kw)
     return build(sdl(bits), name, **kw)
 
 
